@@ -163,12 +163,18 @@ var _ time.Time // lemmas below name package time
 //@   modifies data.Cookie, data.Algo, data.Server, data.Port
 //@   allocates
 //@   ensures result == nil ==> len(data.Cookie) >= old(len(data.Cookie)) && sameslice(data.C2sKey, old(data.C2sKey)) && sameslice(data.S2cKey, old(data.S2cKey))
+//@ pred exportedFor(k, dir) = exportlabel(k) == "EXPORTER-network-time-security" && exportctxlen(k) == 5 && exportctxbyte(k, 0) == 0 && exportctxbyte(k, 1) == 0 && exportctxbyte(k, 2) == 0 && exportctxbyte(k, 3) == 15 && exportctxbyte(k, 4) == dir
 // The exported keys are 32 bytes each (AES-SIV-CMAC-256): checked against a model of the TLS exporter.
 //@ func ExportKeys
 //@   requires data != nil
 //@   modifies data.C2sKey, data.S2cKey
 //@   allocates
 //@   ensures keylen: result == nil ==> lenof(data.C2sKey) == 32 && lenof(data.S2cKey) == 32
+// RFC 8915 5.1: both keys are exported with the label "EXPORTER-network-time-security" and the five-byte context
+// protocol id 0x0000 (NTPv4), AEAD id 0x000f (AES-SIV-CMAC-256), 0x00 for client-to-server / 0x01 for server-to-client
+// (provenance attributes recorded by the exporter model for the slice each call returns).
+//@   ensures c2s: result == nil ==> exportedFor(data.C2sKey, 0)
+//@   ensures s2c: result == nil ==> exportedFor(data.S2cKey, 1)
 //@ func logData
 //@   trusted
 
